@@ -519,10 +519,111 @@ class Facts:
                              % (what, len(bs), ', '.join(b.path for b in bs[:6])))
         return bs[0]
 
+    # ---- the program with private helper functions inlined into their callers (a semantics-preserving normal form: DESIGN §3 A11)
+    def inline_candidates(self, max_sites=3, crates=('cfgrammar', 'lrtable', 'lrpar', 'lrlex')):
+        """non-public, non-recursive functions with at most max_sites direct call sites, all of them in the function's own file"""
+        recursive = self._recursive_paths()
+        sites = {}
+        for path, bd in self.bodies.items():
+            if path.startswith('bin:') or bd.crate not in crates:
+                continue
+            for blk in bd.blocks:
+                t = blk['term']
+                if t['k'] == 'call' and 'indirect' not in t['callee'] and not blk.get('cleanup'):
+                    sites.setdefault(t['callee'].get('resolved') or t['callee']['path'], []).append(bd)
+        out = []
+        for h, callers in sorted(sites.items()):
+            hb = self.bodies.get(h)
+            if hb is None or hb.kind not in ('fn', 'assoc_fn') or hb.crate not in crates or hb.trait or hb.from_expansion or h in recursive:
+                continue
+            if not (hb.d.get('vis') or '').startswith('Restricted') or len(callers) > max_sites or any(c.file != hb.file for c in callers):
+                continue
+            out.append(h)
+        return out
+
+    def inlined_view(self, max_sites=1, only=None, crates=('cfgrammar', 'lrtable', 'lrpar', 'lrlex')):
+        """Only non-public functions defined in the caller's own source file are inlined (a block moved into a helper next to its
+        user), and only those with at most max_sites direct call sites in the library crates (1 = a block that was merely moved out)."""
+        import copy
+        v = copy.copy(self)
+        v.__dict__ = {k: val for k, val in self.__dict__.items() if not k.startswith('_')}
+        v.is_inlined_view = True
+        recursive = self._recursive_paths()
+        nsites = {}
+        for path, bd in self.bodies.items():
+            if path.startswith('bin:') or bd.crate not in crates:
+                continue
+            for blk in bd.blocks:
+                t = blk['term']
+                if t['k'] == 'call' and 'indirect' not in t['callee'] and not blk.get('cleanup'):
+                    k = t['callee'].get('resolved') or t['callee']['path']
+                    nsites[k] = nsites.get(k, 0) + 1
+
+        def can(caller, callee):
+            vis = callee.d.get('vis') or ''
+            return (callee.kind in ('fn', 'assoc_fn') and callee.crate in crates and caller.crate in crates and vis.startswith('Restricted')
+                    and callee.path not in recursive and callee.path != caller.path and not callee.from_expansion and len(callee.blocks) <= 800
+                    and not callee.trait and nsites.get(callee.path, 0) <= max_sites and callee.file == caller.file
+                    and (only is None or callee.path in only))
+        newb = {}
+        for path, bd in self.bodies.items():
+            if path.startswith('bin:') or bd.crate not in crates:
+                newb[path] = bd
+                continue
+            newb[path] = inline_body(self, bd, can)
+        # a helper that no longer has a direct call anywhere is gone from the program
+        used = set()
+        for bd in newb.values():
+            for blk in bd.blocks:
+                t = blk['term']
+                if t['k'] == 'call' and 'indirect' not in t['callee']:
+                    used.add(t['callee'].get('resolved') or t['callee']['path'])
+                for st in blk['stmts']:
+                    if st['k'] == 'assign':
+                        for o in rv_operands(st['rv']):
+                            f = (o.get('const') or {}).get('fn') if isinstance(o, dict) else None
+                            if f:
+                                used.add(f.get('resolved') or f['path'])
+        inlined_somewhere = {h for bd in newb.values() for h in getattr(bd, 'inlined_from', ())}
+        for h in inlined_somewhere:
+            if h not in used:
+                newb.pop(h, None)
+        v.bodies = newb
+        v.by_name = {}
+        for bd in newb.values():
+            v.by_name.setdefault(bd.name, []).append(bd)
+        return v
+
+    def _recursive_paths(self):
+        """functions on a cycle of direct calls"""
+        edges = {}
+        for path, bd in self.bodies.items():
+            outs = set()
+            for blk in bd.blocks:
+                t = blk['term']
+                if t['k'] == 'call' and 'indirect' not in t['callee']:
+                    outs.add(t['callee'].get('resolved') or t['callee']['path'])
+            # a closure's calls count for the function it lives in
+            edges.setdefault(bd.root_parent or path, set()).update(outs)
+        rec = set()
+        for start in edges:
+            seen, todo = set(), list(edges.get(start, ()))
+            while todo:
+                x = todo.pop()
+                if x == start:
+                    rec.add(start)
+                    break
+                if x in seen or x not in edges:
+                    continue
+                seen.add(x)
+                todo.extend(edges[x])
+        return rec
+
     def closures_of(self, body, recursive=True):
         out = []
+        owners = {body.path} | set(getattr(body, 'inlined_from', ()))
         for b in self.bodies.values():
-            if b.kind == 'closure' and (b.parent == body.path or (recursive and b.root_parent == body.path)):
+            if b.kind == 'closure' and (b.parent in owners or (recursive and b.root_parent in owners)):
                 out.append(b)
         out.sort(key=lambda b: b.path)
         return out
@@ -532,6 +633,79 @@ class Facts:
 
     def lib_bodies(self, crates):
         return [b for k, b in sorted(self.bodies.items()) if not k.startswith('bin:') and b.crate in crates]
+
+
+_BLOCK_KEYS = ('bb', 'ret', 'ok', 'otherwise', 'unwind')
+
+
+def _shift_mir(node, loff, boff):
+    """deep copy of a JSON MIR node with local numbers shifted by loff and block numbers by boff"""
+    if isinstance(node, dict):
+        out = {}
+        isplace = 'l' in node and 'p' in node
+        for k, v in node.items():
+            if k == 'l' and isplace and isinstance(v, int):
+                out[k] = v + loff
+            elif k == 'index' and isinstance(v, int):
+                out[k] = v + loff
+            elif k in _BLOCK_KEYS and isinstance(v, int):
+                out[k] = v + boff
+            elif k == 'targets' and isinstance(v, list):
+                out[k] = [[x[0], x[1] + boff] for x in v]
+            else:
+                out[k] = _shift_mir(v, loff, boff)
+        return out
+    if isinstance(node, list):
+        return [_shift_mir(x, loff, boff) for x in node]
+    return node
+
+
+def inline_body(facts, body, can_inline, rounds=3):
+    """`body` with every direct call of a function accepted by can_inline(caller, callee) replaced by the callee's blocks
+    (parameters assigned from the arguments, `return` -> assign the destination and go on after the call).  Semantics-preserving;
+    unwinding edges are not modelled anywhere in this engine and are dropped with the call."""
+    d = None
+    inlined = []
+    for _round in range(rounds):
+        blocks = d['blocks'] if d is not None else body.blocks
+        todo = []
+        for bi, blk in enumerate(blocks):
+            t = blk['term']
+            if t['k'] != 'call' or t.get('ret') is None or 'indirect' in t['callee'] or blk.get('cleanup'):
+                continue
+            hb = facts.bodies.get(t['callee'].get('resolved') or t['callee']['path'])
+            if hb is None or not can_inline(body, hb) or len(t['args']) != hb.arg_count:
+                continue
+            todo.append((bi, hb))
+        if not todo:
+            break
+        if d is None:
+            d = dict(body.d)
+            d['blocks'] = _shift_mir(body.blocks, 0, 0)
+            d['locals'] = list(body.locals)
+            d['debug'] = list(body.d.get('debug', []))
+        for bi, hb in todo:
+            blk = d['blocks'][bi]
+            t = blk['term']
+            loff, boff = len(d['locals']), len(d['blocks'])
+            d['locals'] = d['locals'] + list(hb.locals)
+            for e in hb.d.get('debug', []):
+                d['debug'].append({'name': e['name'], 'place': _shift_mir(e['place'], loff, 0)})
+            nbs = _shift_mir(hb.blocks, loff, boff)
+            for nb in nbs:
+                if nb['term']['k'] == 'return' and not nb.get('cleanup'):
+                    nb['stmts'].append({'k': 'assign', 'lhs': t['dest'], 'rv': {'use': {'move': {'l': loff, 'p': []}}}, 'line': t.get('line'), 'exp': False})
+                    nb['term'] = {'k': 'goto', 'bb': t['ret'], 'line': t.get('line'), 'exp': False}
+            for i, a in enumerate(t['args']):
+                blk['stmts'].append({'k': 'assign', 'lhs': {'l': loff + 1 + i, 'p': []}, 'rv': {'use': a}, 'line': t.get('line'), 'exp': False})
+            blk['term'] = {'k': 'goto', 'bb': boff, 'line': t.get('line'), 'exp': False}
+            d['blocks'] = d['blocks'] + nbs
+            inlined.append(hb.path)
+    if d is None:
+        return body
+    nb = Body(d, body.crate)
+    nb.inlined_from = inlined + list(getattr(body, 'inlined_from', ()))
+    return nb
 
 
 # ------------------------------------------------------------------------------------------------
@@ -1302,6 +1476,16 @@ class Walker:
         if tr == 'core::cmp::PartialEq' and len(args) == 2 and name in ('eq', 'ne'):
             a, b = (strip_ref(args[0]), strip_ref(args[1]))
             return simp(('bin', 'Eq' if name == 'eq' else 'Ne', a, b))
+        if tr == 'core::ops::try_trait::Try' and name == 'branch' and len(args) == 1 and args[0][0] == 'variant':
+            # `?` on a value whose variant is known on this path (after inlining a helper: its `return Err(e)` / `Ok(v)`)
+            v = args[0]
+            if v[3] in ('Ok', 'Some') and len(v[4]) == 1:
+                return ('variant', 'core::ops::control_flow::ControlFlow', 0, 'Continue', (v[4][0],), 0)
+            if v[3] in ('Err', 'None'):
+                return ('variant', 'core::ops::control_flow::ControlFlow', 1, 'Break', (v,), 1)
+        if tr == 'core::ops::try_trait::FromResidual' and name == 'from_residual' and len(args) == 1 and args[0][0] == 'variant' and args[0][3] in ('Err', 'None'):
+            v = args[0]
+            return ('variant', v[1], v[2], v[3], tuple(('conv', 'residual', x) for x in v[4]), v[5])
         if tr == 'core::cmp::Ord' and name == 'cmp' and len(args) == 2:
             return ('cmp', strip_ref(args[0]), strip_ref(args[1]))
         if name == 'reverse' and len(args) == 1 and args[0][0] == 'cmp' and 'Ordering' in ckey:
